@@ -78,6 +78,7 @@ VARIANTS = {
     (EL, "        pad = max(gain_min - gain_target, 0)\n        gain_target += pad", "        pad = max(0, gain_min - gain_target)\n        gain_target = gain_target + pad", 'commuted max, explicit add'),
   ]},
  'C05': {M: [
+    (EL, "    @property\n    def pmd(self):\n        \"\"\"differential group delay (PMD) [s]\"\"\"", "    @__import__('functools').cached_property\n    def pmd(self):\n        \"\"\"differential group delay (PMD) [s]\"\"\"", 'span PMD cached although the length can change (split_fiber)'),
     (EL, "        beta2 = -((c / frequency) ** 2 * dispersion) / (2 * pi * c)", "        beta2 = -((c / frequency) ** 2 * dispersion) / (2 * pi)", 'beta2 conversion loses a factor c'),
     (EL, "                dispersion = (frequency / self.params.f_dispersion_ref) ** 2 * self.params.dispersion", "                dispersion = (frequency / self.params.f_dispersion_ref) * self.params.dispersion", 'dispersion scaled linearly with frequency'),
     (EL, "        return dispersion * length\n", "        return dispersion * length ** 2 / 80000\n", 'CD not proportional to length'),
@@ -176,6 +177,7 @@ VARIANTS = {
     (SA, "                      and freq_index[i] >= freq_index_min\n", "", 'free search: lower guard band unchecked'),
     (SA, "            available_slots = determine_slot_numbers(test_oms, n, m, m)", "            available_slots = determine_slot_numbers(test_oms, n, m, per_channel_m)", 'fixed slot probed partially'),
   ], R: [
+    (SA, "def frequency_to_n(", "@__import__('functools').lru_cache(maxsize=None)\ndef frequency_to_n(", 'pure helper under lru_cache: a sound memo'),
     (SA, "                      if freq_availability[i:i + 2 * requested_m] == [BitmapValue.FREE] * (2 * requested_m)\n                      and freq_index[i] >= freq_index_min\n                      and freq_index[i + 2 * requested_m - 1] <= freq_index_max]", "                      if freq_index[i] >= freq_index_min\n                      and freq_index_max >= freq_index[2 * requested_m + i - 1]\n                      and [BitmapValue.FREE] * (requested_m * 2) == freq_availability[i:i + requested_m * 2]]", 'conjuncts reordered, comparisons flipped'),
     (SA, "        if startn <= self.spectrum_bitmap.n_min:", "        if startn - 1 < self.spectrum_bitmap.n_min:", 'equivalent integer comparison'),
     (SA, "    bitmap = list(spectrum.bitmap)", "    bitmap = spectrum.bitmap.copy()", 'copy idiom'),
@@ -189,6 +191,7 @@ VARIANTS = {
     (SA, "                    nd_out.oms = oms\n", "", 'element left without its OMS'),
     (SA, "        if (n_max - this_o.spectrum_bitmap.n_max) > 0:", "        elif (n_max - this_o.spectrum_bitmap.n_max) > 0:", 'right pad skipped after a left pad'),
   ], R: [
+    (SA, "def frequency_to_n(", "@__import__('functools').lru_cache(maxsize=None)\ndef frequency_to_n(", 'pure helper under lru_cache: a sound memo'),
     (SA, "    bitmap = bitmap + [BitmapValue.UNUSABLE] * (n_max - band0_n_max)\n    return bitmap", "    tail = [BitmapValue.UNUSABLE] * (n_max - band0_n_max)\n    return bitmap + tail", 'hoisted tail'),
   ]},
  'C16': {M: [
